@@ -136,6 +136,9 @@ func (m *lifecycleManager) updateCapabilities() {
 		}
 	}
 
+	m.mu.Lock()
+	defer m.mu.Unlock()
+
 	// Preserve existing experimental features
 	if exp, ok := m.capabilities["experimental"]; ok {
 		capMap["experimental"] = exp
@@ -208,6 +211,8 @@ func (m *lifecycleManager) saveSessionState(session Session, protocolVersion str
 
 // buildInitializeResponse creates the initialization response
 func (m *lifecycleManager) buildInitializeResponse(protocolVersion string) InitializeResult {
+	m.mu.RLock()
+	defer m.mu.RUnlock()
 	return InitializeResult{
 		ProtocolVersion: protocolVersion,
 		ServerInfo: Implementation{
